@@ -180,6 +180,26 @@ def run(rep, tier, seed, tr_errors):
         tru = float(np.max(abs(abs(ra.impedances) / abs(Z) - 1)))
         if tru > TOL_EXACT:
             bad.append((desc, "constant-phase spectrum with a named window: reconstructed modulus off by %.3g" % tru))
+    # (5a) LOWESS regresses on ln(omega) itself: data that are linear in ln(omega) stay unchanged also when the points are NOT equally
+    # spaced (two sweeps of different density merged); the other smoothers work on the point index and are judged on uniform grids below
+    for n_hi, n_lo in ((20, 4), (5, 12)):
+        f_nu = np.concatenate([np.logspace(4, 1, 3 * n_hi + 1), np.logspace(1, -2, 3 * n_lo + 1)[1:]])
+        lw_nu = np.log(2 * np.pi * f_nu)
+        for npts in (5, 7, 9):
+            data_nu = 0.3 - 0.11 * lw_nu
+            try:
+                with warnings.catch_warnings():
+                    warnings.simplefilter("ignore")
+                    outp = _smooth_phase("lowess", npts, 2, 3, lw_nu, data_nu.copy())
+            except Exception as e:  # noqa
+                bad.append((dict(smoothing="lowess", num_points=npts, grid="%d and %d points per decade" % (n_hi, n_lo)), "raised %s: %s" % (type(e).__name__, str(e)[:100])))
+                continue
+            stats["smoothing_cases"] += 1
+            rep.evaluations += 1
+            e_ = float(np.max(abs(outp - data_nu)))
+            if e_ > 1e-9:
+                bad.append((dict(smoothing="lowess", num_points=npts, data="linear in ln(omega)", grid="%d and %d points per decade" % (n_hi, n_lo)),
+                            "smoothing changes data that are linear in ln(omega) by %.3g" % e_))
     # (5) smoothing of constant and linear data
     known_hits = set()
     for n in ((21, 41) if tier == "quick" else (21, 41, 71, 101)):
